@@ -31,8 +31,8 @@ pub fn replay(path: &str) -> i32 {
                 for c in &n.calls {
                     let evs: Vec<String> = n.events.iter().filter(|e| e.0 == c.round).map(|e| format!("{:?}", e.2)).collect();
                     println!(
-                        "  round {:3} t={:8} res={:2} adv={} save={} load={} cur={:3} conf={:3} ahead={:2} behind={:2} {}",
-                        c.round, c.t_us, c.res, c.n_adv, c.n_save, c.n_load, c.cur, c.conf, c.ahead, c.behind,
+                        "  round {:3} t={:8} res={:2} adv={} save={} load={} cur={:3} conf={:3} ahead={:2} behind={:2} stats={:?} {}",
+                        c.round, c.t_us, c.res, c.n_adv, c.n_save, c.n_load, c.cur, c.conf, c.ahead, c.behind, c.stats,
                         evs.join(" ")
                     );
                 }
